@@ -162,6 +162,17 @@ CLAIMED = {
          "written by buildFMQMap, the global-alias deduplication branch, MergeInbound/MergeOutbound and CollectInbound/OutboundChannels, and the port "
          "allocation in makeTaskForMesosResources. Template evaluation of targets and FairMQ's reading of the properties are outside.",
          "DESIGN.md §6 C13"),
+ "C19": ("Proof obligations: FifoBuffer (verified on the generic body, element type abstract): Push appends at the end leaving the prefix intact and "
+         "writing nothing but its own buffer field (frame); PopMultiple returns at most n elements always, and for a non-empty buffer exactly the "
+         "first min(n, len) elements in order, leaving the remainder in order; Length is the length. writingLoop pops batches of at most 100 and "
+         "declares itself finished only after it saw the buffer empty after the done signal (flush on shutdown - a genuine defect found here and "
+         "repaired by a fix: commit); writeBatch hands a non-empty batch to the broker exactly once; batchingLoop pushes every received message "
+         "before receiving the next and signals done after its last push; internalEventToKafkaEvent keys role, environment, call, integrated-"
+         "service and run events by their environment id and task events by their task id, and gives no key to other events.",
+         "Multi-producer interleavings, lost wake-ups of the condition variable, what happens across a Wait (stated as a precondition: the sequential "
+         "core), producers blocking when the 10 000-slot channel is full, and 'without the producers ever waiting for the broker' are schedule / "
+         "liveness questions not decided. math.Min over exact conversions, sync.Cond/Locker as no-ops on data, proto getters executed symbolically.",
+         "DESIGN.md §6 C19"),
 }
 
 NOT_APPLICABLE = {
